@@ -80,6 +80,8 @@ type Case struct {
 	Cmds      []NamedRecs
 	NoArgVars bool
 	NoNL      bool // last record of each file is written without a trailing newline
+	Mode      string // input mode: "" (default), "csv", "tsv"
+	ModeVia   string // "config" (Config.InputMode) or "begin" (INPUTMODE assigned first thing in BEGIN)
 	P         Prog
 }
 
@@ -195,14 +197,61 @@ func wireStrs(tag string, l []string) string {
 
 const modelFuel = 20000
 
+// modeSep: 0 in default mode, else the field separator of the CSV/TSV splitter
+func (c *Case) modeSep() int {
+	switch c.Mode {
+	case "csv":
+		return ','
+	case "tsv":
+		return '\t'
+	}
+	return 0
+}
+
+// recs: the records a reader gets from these lines in the case's input mode: the CSV/TSV record
+// splitter skips empty lines (record splitting itself is C07/C08's business; data has no quotes)
+func (c *Case) recs(l []string) []string {
+	if c.Mode == "" {
+		return l
+	}
+	var out []string
+	for _, r := range l {
+		if r != "" {
+			out = append(out, r)
+		}
+	}
+	return out
+}
+
+func (c *Case) namedRecs(l []NamedRecs) []NamedRecs {
+	if c.Mode == "" {
+		return l
+	}
+	out := make([]NamedRecs, len(l))
+	for i, f := range l {
+		out[i] = NamedRecs{f.Name, c.recs(f.Recs)}
+	}
+	return out
+}
+
+// src: the AWK text of the case
+func (c *Case) src() string { return c.P.awkP(c.modePrologue()) }
+
+func (c *Case) modePrologue() string {
+	if c.Mode != "" && c.ModeVia == "begin" {
+		return fmt.Sprintf("BEGIN { INPUTMODE = %q }\n", c.Mode)
+	}
+	return ""
+}
+
 func (c *Case) wire() string {
 	var sb strings.Builder
 	nav := 0
 	if c.NoArgVars {
 		nav = 1
 	}
-	fmt.Fprintf(&sb, "run %d %d %s %s %s %s %s ", nav, modelFuel, wireStrs("A", c.Args), wireStrs("I", c.Stdin),
-		wireNamed("F", c.Files), wireNamed("C", c.Cmds), wireStrs("G", globalNames))
+	fmt.Fprintf(&sb, "run %d %d %d %s %s %s %s %s ", nav, c.modeSep(), modelFuel, wireStrs("A", c.Args), wireStrs("I", c.recs(c.Stdin)),
+		wireNamed("F", c.namedRecs(c.Files)), wireNamed("C", c.namedRecs(c.Cmds)), wireStrs("G", globalNames))
 	sb.WriteString(c.wireProg())
 	return sb.String()
 }
@@ -373,7 +422,8 @@ func (p *Prog) awk() string { return p.awkP("") }
 // awkP: the program text with an AWK-only first BEGIN block (used by the reused-interpreter histories)
 func (p *Prog) awkP(prologue string) string {
 	var sb strings.Builder
-	sb.WriteString("function T(tag, vals) { print \"T,\" tag \",\" NR \",\" FNR \",\" H(FILENAME) \",\" H($0) \",\" NF \",\" (r+0) \",\" vals }\n")
+	sb.WriteString("function T(tag, vals,   k_, fl_) { fl_ = \"-\"; for (k_ = 1; k_ <= NF; k_++) fl_ = (k_ > 1 ? fl_ \"/\" : \"\") H($k_); " +
+		"print \"T,\" tag \",\" NR \",\" FNR \",\" H(FILENAME) \",\" H($0) \",\" NF \",\" (r+0) \",\" vals \",\" fl_ }\n")
 	sb.WriteString("function zz_() { return g0 g1 g2 g3 a[0] a[1] }\n")
 	for i, f := range p.Funcs {
 		fmt.Fprintf(&sb, "function f%d(%s) {\n%s}\n", i, f.Local, awkBlock(f.Body, "  "))
